@@ -77,8 +77,6 @@ func errClass(err error) string {
 		return "err:ratio"
 	case errors.Is(err, kv.ErrNoEnoughSpaceForMerge):
 		return "err:nospace"
-	case errors.Is(err, kv.ErrMergeFileIDConflict):
-		return "err:mergeids"
 	case errors.Is(err, datafile.ErrIncompleteChunk):
 		return "err:incomplete"
 	case errors.Is(err, datafile.ErrInvalidCRC):
@@ -94,7 +92,7 @@ func errClass(err error) string {
 	if strings.Contains(msg, "invalid crc") {
 		return "err:crc"
 	}
-	if strings.Contains(msg, "merge id conflict") || strings.Contains(msg, "merge output") {
+	if strings.Contains(msg, "merge abandoned") || strings.Contains(msg, "merge output") {
 		return "err:mergeids"
 	}
 	return "err:other(" + strings.ReplaceAll(msg, " ", "_") + ")"
